@@ -4,10 +4,15 @@ CONSTANTS
   MaxDepth = 3
   OvMode = "all"
   SrcMode = "none"
+  MaxStack = 0
+  StackNodes = 0
+  Shape = "any"
   Dump = FALSE
 INVARIANT WellFormed
 INVARIANT Unambiguous
 INVARIANT DictAgrees
+INVARIANT OwnAgrees
+INVARIANT Precedence
 INVARIANT NoLeak
 INVARIANT Applies
 INVARIANT SourceOrder
